@@ -31,6 +31,8 @@ import (
 
 const legacyArtifactManifest = "application/vnd.oci.artifact.manifest.v1+json"
 
+var nearTypes = []string{"application/vnd.cncf.notary.Signature", "APPLICATION/VND.CNCF.NOTARY.SIGNATURE", "Application/vnd.cncf.notary.signature", "application/vnd.cncf.notary.signature.v2", "application/vnd.cncf.notary.signature ", "application/vnd.cncf.notary.signatur"}
+
 // counting wraps a GraphTarget and counts Fetch calls per digest.
 type counting struct {
 	oras.GraphTarget
@@ -156,6 +158,18 @@ func main() {
 					panic(err)
 				}
 				trace = append(trace, fmt.Sprintf("foreign artifact type referrer of subject#%d", si))
+				if rng.Intn(3) == 0 {
+					// an artifact type that is spelled ALMOST like the Notary one (other letter case, a suffix, a blank) is another type
+					variant := nearTypes[rng.Intn(len(nearTypes))]
+					vcfg := ocispec.Descriptor{MediaType: variant, Digest: ocispec.DescriptorEmptyJSON.Digest, Size: 2}
+					store.Push(ctx, vcfg, bytes.NewReader([]byte("{}")))
+					bd3, _ := oras.PushBytes(ctx, store, lib.MediaJWS, []byte(fmt.Sprint("near-type", iter, op)))
+					nm := ocispec.Manifest{MediaType: ocispec.MediaTypeImageManifest, Config: vcfg, Layers: []ocispec.Descriptor{bd3}, Subject: &sub, ArtifactType: variant}
+					nm.SchemaVersion = 2
+					pushJSON(ctx, store, ocispec.MediaTypeImageManifest, nm)
+					trace = append(trace, fmt.Sprintf("image manifest of the near-miss artifact type %q for subject#%d", variant, si))
+					r.Event("referrers-of-a-near-miss-artifact-type")
+				}
 				if rng.Bool() {
 					// what a generic OCI 1.1 tool attaches when told "--artifact-type application/vnd.cncf.notary.signature": the
 					// artifactType FIELD names notation, the config is the empty one. A Notary signature manifest is recognised
@@ -217,6 +231,10 @@ func main() {
 				am := map[string]any{"mediaType": legacyArtifactManifest, "artifactType": registry.ArtifactTypeNotation, "blobs": []ocispec.Descriptor{bd}, "subject": sub, "annotations": map[string]string{"legacy": fmt.Sprint(op)}}
 				if rng.Intn(3) == 0 {
 					am["artifactType"] = "application/vnd.example.other"
+					if rng.Bool() {
+						am["artifactType"] = nearTypes[rng.Intn(len(nearTypes))]
+						r.Event("referrers-of-a-near-miss-artifact-type")
+					}
 				}
 				if rng.Intn(2) == 0 {
 					// members the (withdrawn) artifact-manifest spec does not know: other producers wrote them, readers ignore them
@@ -428,7 +446,7 @@ func main() {
 
 	// a referrer whose MANIFEST really exceeds the 4 MiB cap, foreign or notation-typed, next to a good signature: whatever
 	// the listing answers (an error, or the good signature alone), the oversized manifest's content is never read
-	for _, typed := range []string{"foreign", "notation"} {
+	for _, typed := range []string{"foreign", "notation", "legacy-foreign", "legacy-notation"} {
 		for _, where := range []string{"memory", "disk"} {
 			var inner oras.GraphTarget = memory.New()
 			if where == "disk" {
@@ -459,6 +477,16 @@ func main() {
 			var bigMan ocispec.Descriptor
 			func() {
 				defer func() { recover() }()
+				if strings.HasPrefix(typed, "legacy") {
+					// the same as a legacy artifact manifest (the manifest cap is the manifest cap, whatever the manifest format)
+					at := "application/vnd.example.other"
+					if typed == "legacy-notation" {
+						at = registry.ArtifactTypeNotation
+					}
+					bigMan = pushJSON(ctx, store, legacyArtifactManifest, map[string]any{"mediaType": legacyArtifactManifest, "artifactType": at, "blobs": []ocispec.Descriptor{layer}, "subject": sub,
+						"annotations": map[string]string{"pad": strings.Repeat("p", 4*1024*1024+10)}})
+					return
+				}
 				bigMan = pushJSON(ctx, store, ocispec.MediaTypeImageManifest, m)
 			}()
 			if bigMan.Digest == "" {
